@@ -37,7 +37,7 @@ def jobs_api(rng, thorough):
 
 
 def run(ctx: core.Ctx):
-    ctx.lean_stage(extra_props=("Tie",))
+    ctx.lean_stage(extra_props=("C01x", "Tie"))
     b2check.run_b2(ctx, jobs, ["C01"], label="traffic scenarios")
     # exhaustive within a bound: every schedule up to 3 (thorough: 5) deviations from the canonical one, on small scenarios
     _small = gen.small_scenarios()
